@@ -243,6 +243,9 @@ func verifMachine(k int) (system.System, []*libmem.Node, int) { return verifMach
 
 // verifMachineMem is verifMachine with the given memory capacity per NUMA
 // node (nil: 64 GiB each).
+// verifIsolatedCPUs: CPUs the next fake machine reports as kernel-isolated
+var verifIsolatedCPUs []int
+
 func verifMachineMem(k int, caps []int64) (system.System, []*libmem.Node, int) {
 	var cpus []system.VerifCPU
 	var nodes []system.VerifNode
@@ -310,6 +313,9 @@ func verifMachineMem(k int, caps []int64) (system.System, []*libmem.Node, int) {
 			cpus[i].Core = cpus[i].ID / 2
 			cpus[i].Cluster = cpus[i].ID / 2
 		}
+	}
+	for _, id := range verifIsolatedCPUs {
+		cpus[id].Isolated = true
 	}
 	sys := system.VerifNewSystem(cpus, nodes)
 	if k == 4 {
